@@ -123,7 +123,11 @@ static void read_back_files() {
     }
 }
 
-static void hook(const char *name, long, long b) { if (!strncmp(name, "ap.p.", 5) || !strncmp(name, "log.", 4)) S().arrive(name, "P", b); }
+static thread_local int tl_dispatch_delay_us = 0;      // "boundary" step: this thread is held between taking its time stamp and the dispatch lock
+static void hook(const char *name, long, long b) {
+    if (tl_dispatch_delay_us > 0 && !strcmp(name, "log.dispatch.enter")) std::this_thread::sleep_for(std::chrono::microseconds(tl_dispatch_delay_us));
+    if (!strncmp(name, "ap.p.", 5) || !strncmp(name, "log.", 4)) S().arrive(name, "P", b);
+}
 
 static std::string make_text(int th, int seq, size_t len) {
     char tag[16]; snprintf(tag, sizeof tag, "T%02d#%04d:", th, seq);
@@ -133,6 +137,22 @@ static std::string make_text(int th, int seq, size_t len) {
 static char g_dynmod[1400] = "modA";
 static int g_dyn_idx = 0;
 struct CallSpec { int lvl, mod, fn, file, line; size_t len; bool args; bool dyn = false; };
+// mode 1: wait until the last few hundred microseconds of the current second, then log with the dispatch held for 1.5 ms (the record is stamped in
+// second N and reaches the sinks after records stamped in second N+1); mode 2: wait until the next second has begun, then log at once
+static void logger(int th, std::vector<CallSpec> calls, int seq0);
+static void boundary_logger(int th, CallSpec c, int seq0, int mode) {
+    struct timeval tv; gettimeofday(&tv, nullptr);
+    long sec0 = tv.tv_sec;
+    for (;;) {
+        gettimeofday(&tv, nullptr);
+        if (mode == 1 && (tv.tv_sec > sec0 || tv.tv_usec >= 999400)) break;
+        if (mode == 2 && tv.tv_sec > sec0) break;
+        std::this_thread::sleep_for(std::chrono::microseconds(mode == 1 && tv.tv_usec < 990000 ? 2000 : 20));
+    }
+    tl_dispatch_delay_us = mode == 1 ? 1500 : 0;
+    logger(th, std::vector<CallSpec>{c}, seq0);
+    tl_dispatch_delay_us = 0;
+}
 static void logger(int th, std::vector<CallSpec> calls, int seq0) {
     { std::lock_guard<std::mutex> g(g_tidm); g_th_of_tid[syscall(SYS_gettid)] = th; }
     tl_th = th;
@@ -296,6 +316,13 @@ static void run_execution(vh::Rng &rng, uint64_t seed, int xno) {
             for (int s = 1; s <= 3; ++s) if (en[s] && rng.chance(60)) disable_sink(s);
         }
         {   CallGuard cg; for (auto &t : th) t.join(); }
+        // two records on either side of a second boundary, the earlier one dispatched last: each must still show its own time
+        if ((en[2] || en[3]) && rng.chance(30)) {
+            CallSpec c; c.lvl = 0; c.mod = (int)rng.below(3); c.fn = 0; c.file = 0; c.line = 77; c.len = 12; c.args = rng.chance(50);
+            std::thread a(boundary_logger, 1, c, seqs[1], 1), b(boundary_logger, 2, c, seqs[2], 2);
+            seqs[1] += 1; seqs[2] += 1;
+            {   CallGuard cg; a.join(); b.join(); }
+        }
         // the process forks: the child's (only) thread is a thread of its own, its records carry its own id
         if (rng.chance(35)) {
             for (int s = 2; s <= 3; ++s) if (en[s]) disable_sink(s);
